@@ -22,6 +22,8 @@ func init() {
 			ruleProtoMapEntry(c)
 			rulePointerWrapper(c)
 			ruleOverlayKey(c)
+			ruleNewFresh(c)
+			ruleLeadCountEmpty(c)
 			ruleEfaceDirect(c)
 			// nested values are framed by the size their codec reports: size = appended length is a
 			// necessary condition of the round trip (the reader slices the body by that length)
